@@ -1,6 +1,7 @@
 """SRC — source equality (development plugin, not one of the C-properties).
 
-Theorems (Props/SRC.v: extension algebra; Props/SRCfilter.v: key filter; Props/SRClookup.v: NiftiWrapper lookups): the hand-written models of the small pure functions the extension algebra and the key
+Theorems (Props/SRC.v: extension algebra; Props/SRCfilter.v: key filter; Props/SRClookup.v: NiftiWrapper lookups;
+Props/SRCvalid.v: DcmMetaExtension.check_valid on raw contents): the hand-written models of the small pure functions the extension algebra and the key
 filter rest on are EQUAL, for all inputs, to the definitions TRANSLATED on every run from the current Python
 sources (tools/tables/t_src_ext.py, t_src_filter.py -> coq/Generated/T_src_ext.v, T_src_filter.v).
 
@@ -13,11 +14,11 @@ from fractions import Fraction
 from vlib.coqlit import cnat, cz, cbool, clist, copt, cpair, cstr, cq, cjv
 
 ID = "SRC"
-COQ_PROPS = ["Props/SRC.v", "Props/SRCfilter.v", "Props/SRClookup.v"]
+COQ_PROPS = ["Props/SRC.v", "Props/SRCfilter.v", "Props/SRClookup.v", "Props/SRCvalid.v"]
 THEOREMS = ["SRC_is_constant", "SRC_is_repeating", "SRC_class_names", "SRC_valid_classes", "SRC_class_valid", "SRC_multiplicity",
             "SRC_multiplicity_foreign", "SRC_const_period", "SRC_n_slices", "SRC_key_regex_filter", "SRC_make_key_regex_filter",
-            "SRC_meta_valid", "SRC_get_meta", "SRC_getitem"]
-TABLES = ["t_src_ext", "t_src_filter", "t_src_lookup", "t_classes", "t_ext_tol"]
+            "SRC_meta_valid", "SRC_get_meta", "SRC_getitem", "SRC_valid_classes_dyn", "SRC_multiplicity_dyn", "SRC_check_valid"]
+TABLES = ["t_src_ext", "t_src_filter", "t_src_lookup", "t_src_valid", "t_classes", "t_ext_tol", "t_content"]
 ALLOWED_AXIOMS = []
 TRUSTED_BASE = ["tools/tables/py2coq.py (+ t_src_ext.py, t_src_filter.py): typed statement translator Python -> Gallina, "
                 "fail-closed outside the vocabulary documented in its docstring",
@@ -25,6 +26,10 @@ TRUSTED_BASE = ["tools/tables/py2coq.py (+ t_src_ext.py, t_src_filter.py): typed
                 "a compiled regular expression is represented by its search predicate; re.compile is a parameter whose only assumed "
                 "property is the hypothesis of SRC_make_key_regex_filter (the alternation of the parts matches iff one part does)"]
 ASSUMPTIONS = ["Python ints that are sizes, periods or list positions are non-negative (nat); voxel indices of get_meta are ints of either sign (Z)",
+               "check_valid: dynamic values follow the conventions of Common/PyOps2Dyn.v (numbers = ints and bools; a float in a numeric "
+               "position is outside the domain); SRC_check_valid holds where no classification entry content[base][sub] is a list or a str "
+               "(there the hand model is knowingly inexact, see SRC_check_valid_domain_needed); np.array and the version table lookup are "
+               "provided by Content/Model.v (np_shape, req_keys)",
                "lookups: everything read from the image / extension is a parameter (Ext/SrcEqLookup.v says how the model's img / hdr / ext "
                "records provide it); `values[i]` on a value is the parameter vindex, tied to the model's value list by the hypothesis of "
                "SRC_get_meta; np.allclose is the exact-Q Seq.allclose",
@@ -533,4 +538,98 @@ class Lookups:
             and case.get('index') is not None and obs['val'] != case.get('default')
 
 
-PARTS = [Calls, Lookups]
+
+
+
+# ================================================================== part "valid"
+
+class Valid:
+    NAME = "valid"
+    CORR_REQUIRE = "From DV Require Import Common.Jv Content.SrcEqValidCorr."
+    CORR_CASE_TYPE = "SrcEqValidCorr.case"
+    CORR_CHECK = "SrcEqValidCorr.check"
+    CORR_SHOW = "SrcEqValidCorr.show"
+    SHARD = 150
+    RULE = ("the contents of C10's `check` stream (valid contents of every dimensionality / slice dim / version, every single corruption, "
+            "double corruptions, the malformed stream) that have no float in a numeric position, plus contents whose classification entries "
+            "are lists of scalars / strs / numbers / None (outside the domain of SRC_check_valid, inside the translation's); "
+            "DcmMetaExtension.from_json(json.dumps(content)) accepted / exception class vs check_valid_dyn; non-trivial = rejected or has varying keys")
+
+    @staticmethod
+    def _numeric_ok(c):
+        """no float where the code computes: shape entries, slice dim"""
+        if not isinstance(c, dict):
+            return True
+        sd = c.get('dcmmeta_slice_dim')
+        if isinstance(sd, float):
+            return False
+        sh = c.get('dcmmeta_shape')
+        if isinstance(sh, list) and any(not isinstance(e, int) for e in sh):
+            return False
+        if isinstance(sh, (str, dict)) and len(sh) > 0:
+            return False
+        return True
+
+    @staticmethod
+    def gen_cases(rng, tier):
+        from props import c10
+        out = []
+        base = [k for k in c10.Check.gen_cases(rng, tier) if Valid._numeric_ok(k['content'])]
+        rng.shuffle(base)
+        base = base[:700] if tier == 'quick' else base[:6000]
+        for k in base:
+            out.append({'kind': k['kind'].split(':')[0], 'content': k['content']})
+        # classification entries that are not dicts
+        n = 150 if tier == 'quick' else 3000
+        for _ in range(n):
+            c = c10.gen_base(rng, nkeys=rng.choice([0, 1, 2]))
+            for _ in range(rng.choice([1, 1, 2])):
+                b, s_ = rng.choice(PYCLS)
+                v = rng.choice([[], [1, 2], ['k1'], 'k1', '', 0, 5, None, True, ['k1', 'k2', 'k1']])
+                if rng.random() < 0.25:
+                    c[b] = v
+                elif isinstance(c.get(b), dict):
+                    c[b][s_] = v
+            if Valid._numeric_ok(c):
+                out.append({'kind': 'nondict-entry', 'content': c})
+        return out
+
+    @staticmethod
+    def run_impl(case):
+        import json
+        from props import c10
+        from dcmstack.dcmmeta import DcmMetaExtension
+        try:
+            DcmMetaExtension.from_json(json.dumps(case['content']))
+            return {'r': 'ok'}
+        except Exception as e:
+            n = c10.errname(e)
+            if n is None:
+                raise
+            return {'r': n}
+
+    @staticmethod
+    def coq_case(case, obs):
+        return 'SrcEqValidCorr.mk_case %s %s' % (cjv(case['content']), '(Ok tt)' if obs['r'] == 'ok' else '(Err %s)' % obs['r'])
+
+    @staticmethod
+    def oracle(case, obs):
+        from props import c10
+        if not isinstance(obs, dict) or 'r' not in obs or case['kind'] == 'nondict-entry':
+            return None
+        j = c10.judge(case['content'], obs['r'] == 'ok', 'check_valid / from_json', obs['r'])
+        if j and j[1] != c10.KNOWN_SIG:        # the blind spots of check_valid are C10's open finding, not ours
+            return j[0]
+        return None
+
+    @staticmethod
+    def signature(case, obs, msg):
+        return 'src-check-valid'
+
+    @staticmethod
+    def nontrivial(case, obs):
+        from props import c10
+        return obs.get('r') != 'ok' or c10.content_has_varying(case['content'])
+
+
+PARTS = [Calls, Lookups, Valid]
